@@ -40,6 +40,8 @@ REQUIRED_THEOREMS = [
     # round 3
     "volumeGuards_clear_restores_fresh", "history_after_clear_eq_fresh", "meshGuards_wellGuarded", "meshGuards_init_covers_attrs",
     "walkLoops_eq_model", "edgeMapDomain_eq_model",
+    # round 3b
+    "boundary_maps_are_instance_state", "instances_isolated", "volume_two_instances_safe",
 ]
 
 TRUSTED = [
@@ -66,7 +68,9 @@ RULE = ("conforming tet meshes (single, pair, fans around an edge/vertex, Kuhn g
         "coordinates, user-declared faces and edges, numpy integer scalars as query arguments, the empty mesh; USED objects: queries, "
         "in-place relabelling of cells, clear(), queries again; cached border lists read twice; boundary connectivity enabled twice; "
         "standalone extractor twice on a mesh whose caches are filled; mesh-level accessors (boundary_*/interior_*/is_*_on_border/"
-        "enable_boundary_connectivity) inside the lazy histories; hexahedral grids (oracle only). non-trivial = distinct mesh with >=2 cells and >=1 interior face (vol) or distinct "
+        "enable_boundary_connectivity) inside the lazy histories; hexahedral grids (oracle only). Round 3b: ANOTHER mesh in use - a second, "
+        "different VolumeMesh and a SurfaceMesh are built, enabled, queried and cleared between the construction of the mesh under "
+        "test and its queries, between its queries, and between enable_boundary_connectivity() and the reading of its index maps. non-trivial = distinct mesh with >=2 cells and >=1 interior face (vol) or distinct "
         "history with >=2 distinct accessors (lazy)")
 
 ERRS = {KeyError: "err:Key", IndexError: "err:Index", ValueError: "err:Value", TypeError: "err:Type"}
@@ -160,6 +164,9 @@ def cases(rng, tier):
             elif r < 0.40:
                 case["decl_faces"], case["decl_edges"] = GV.declared_elements(rng, base["C"], rng.randint(1, 4))
             if rng.random() < 0.25: case["npargs"] = True          # numpy integer scalars as query arguments
+            if rng.random() < 0.30:                                 # ANOTHER mesh (a different volume + a surface) is built, enabled and queried
+                o = GV.random_volume(rng, max_cells=rng.choice([3, 8]))   # between the construction of this mesh and its queries
+                case["other"] = {"V": o["V"], "C": o["C"]}
             if rng.random() < 0.25:                                 # used object: query, relabel cells in place, clear(), query again
                 case["pre_swaps"] = GV.random_swaps(rng, base["C"], rng.randint(1, 3))
         else:
@@ -185,7 +192,11 @@ def cases(rng, tier):
         for _ in range(L):
             a = rng.choice(alpha) if rng.random() > 0.12 else "clear"
             ops.append([a] + LAZY_ARGS[a](d, rng))
-        yield {"t": "lazy", "V": base["V"], "C": base["C"], "tag": base["tag"], "sort": rng.random() < 0.8, "ops": ops}
+        case = {"t": "lazy", "V": base["V"], "C": base["C"], "tag": base["tag"], "sort": rng.random() < 0.8, "ops": ops}
+        if rng.random() < 0.3:
+            o = rng.choice(small)
+            if o is not base: case["other"] = {"V": o["V"], "C": o["C"]}
+        yield case
 
 
 # ------------------------------------------------------------------------------------------------
@@ -281,6 +292,8 @@ LISTS = (("BF", "boundary_faces"), ("IF", "interior_faces"), ("BV", "boundary_ve
 def _observe_vol(case):
     m = _build(case, final=False)
     c = m.connectivity
+    other = _Other(case)
+    other.use()
     if case.get("pre_swaps"):
         # a USED object: everything is queried on the initial cells, then cells are relabelled in place (i-th <-> j-th vertex
         # of a cell: same mesh, other local numbering / orientation), then clear() as its docstring asks; all that follows
@@ -301,7 +314,7 @@ def _observe_vol(case):
     clear_at = {rnd.randrange(len(keys) + 1) for _ in range(2)}
     ans = {}
     for i, k in enumerate(keys):
-        if i in clear_at: c.clear()
+        if i in clear_at: c.clear(); other.use()
         fn, a = q[k]
         ans[k] = _norm(_call(fn, a))
     # re-ask a sample after another clear(): answers must not depend on the history
@@ -321,6 +334,7 @@ def _observe_vol(case):
     obs["CF"] = [_norm(_call(c.common_face, I(a), I(b))) for a, b in case["pairs"]]
     obs["ICF"] = [_norm(_call(c.in_cell_face_index, I(a), I(min(b, nF - 1)))) for a, b in case["cf"]]
     obs["ICI"] = [_norm(_call(c.in_cell_index, I(a), I(b))) for a, b in case["cv"]]
+    other.use()
     for name, prop in LISTS:
         obs[name] = _norm(_call(lambda p=prop: list(getattr(m, p))))
     obs["isF"] = [_norm(_call(m.is_face_on_border, I(f))) for f in range(nF)]
@@ -328,13 +342,15 @@ def _observe_vol(case):
     obs["isV"] = [_norm(_call(m.is_vertex_on_border, I(v))) for v in range(nV)]
     obs["isE"] = [_norm(_call(m.is_edge_on_border, I(e))) for e in range(nE)]
     obs["isE2"] = [_norm(_call(m.is_edge_on_border, *obs["edges"][e])) for e in range(nE)]
-    obs["bc"] = _boundary_connectivity(m)
+    obs["bc"] = _boundary_connectivity(m, other)
     # the standalone extractor on a fresh instance
     obs["sb"] = _standalone(_build(case))
     # used object: second read of the cached lists, second boundary connectivity, standalone extractor (twice) on the
     # mesh whose caches are all filled
+    other.use()
     obs["lists_again"] = {name: _norm(_call(lambda p=prop: list(getattr(m, p)))) for name, prop in LISTS}
-    obs["bc2"] = _boundary_connectivity(m)
+    obs["bc_reread"] = _read_boundary_maps(m)     # maps of the FIRST boundary connectivity, read again later
+    obs["bc2"] = _boundary_connectivity(m, other)
     obs["sb_used"] = _standalone(m)
     obs["sb_used2"] = _standalone(m)
     return obs
@@ -356,9 +372,49 @@ def _observe_hex(case):
     return obs
 
 
-def _boundary_connectivity(m):
+class _Other:
+    """A second, different VolumeMesh (and a SurfaceMesh) alive next to the mesh under test. `use()` builds them on the
+    first call and then enables / queries / clears everything on them: nothing of this may change an answer of the
+    mesh under test (no state shared between instances)."""
+
+    def __init__(self, case):
+        self.desc = case.get("other")
+        self.vol = self.surf = None
+        self.n = 0
+
+    def use(self):
+        if not self.desc: return
+        import mouette as M
+        try:
+            if self.vol is None:
+                self.vol = G.build_volume({"V": self.desc["V"], "C": self.desc["C"]})
+                d = M.mesh.RawMeshData()
+                d.vertices += [M.Vec(0., 0., 0.), M.Vec(1., 0., 0.), M.Vec(0., 1., 0.), M.Vec(0., 0., 1.), M.Vec(2., 2., 2.)]
+                d.faces += [[0, 2, 1], [0, 1, 3], [1, 2, 3], [0, 3, 2]]
+                self.surf = M.mesh.SurfaceMesh(d)
+            else:
+                self.vol.connectivity.clear(); self.surf.connectivity.clear()
+            o = self.vol
+            for fn, a in _accessors(o).values(): _call(fn, a)
+            for _, prop in LISTS: _call(lambda p=prop: list(getattr(o, p)))
+            o.enable_boundary_connectivity()
+            b = o.boundary_connectivity
+            _call(lambda: [b.vertex_to_vertices(v) for v in list(b.m2b_vertex)[:3]])
+            from mouette.processing.border import extract_boundary_of_volume
+            _call(extract_boundary_of_volume, o)
+            sc = self.surf.connectivity
+            for v in range(4): _call(sc.vertex_to_vertices, v); _call(sc.vertex_to_faces, v)
+            for e in range(len(self.surf.edges)): _call(sc.edge_id, *self.surf.edges[e])
+            _call(lambda: list(self.surf.boundary_edges))
+            self.n += 1
+        except Exception:  # noqa  (a failure of the OTHER mesh is not an observation of this case)
+            pass
+
+
+def _boundary_connectivity(m, other=None):
     try:
         m.enable_boundary_connectivity()
+        if other is not None: other.use()        # the maps of `m` are read AFTER the other mesh enabled its own
         b = m.boundary_connectivity
         bm = b.mesh
         out = {"faces": [_ints(f) for f in bm.faces], "edges": [_ints(e) for e in bm.edges], "nV": len(bm.vertices)}
@@ -367,6 +423,15 @@ def _boundary_connectivity(m):
         out["same_points"] = all(list(bm.vertices[i]) == list(m.vertices[v]) for i, v in getattr(b, "b2m_vertex").items())
         out["boundary_mesh_is_mesh"] = m.boundary_mesh is bm
         return out
+    except Exception as e:  # noqa
+        return {"err": _err(e)}
+
+
+def _read_boundary_maps(m):
+    try:
+        b = m.boundary_connectivity
+        return {name: sorted([int(k), None if v is None else int(v)] for k, v in getattr(b, name).items())
+                for name in ("m2b_vertex", "b2m_vertex", "m2b_face", "b2m_face", "m2b_edge", "b2m_edge")}
     except Exception as e:  # noqa
         return {"err": _err(e)}
 
@@ -406,8 +471,10 @@ def _lazy_fn(m, name):
 
 def _observe_lazy(case):
     m = _build(case)
+    other = _Other(case)
     out = []
     for op in case["ops"]:
+        other.use()
         st, val = _lazy_outcome(_lazy_fn(m, op[0]), op[1:])
         out.append([st, val])
     return {"steps": out}
@@ -619,6 +686,7 @@ def _F(key, what, detail=""):
 def _family_key(case, key):
     """structural key of the case family a violation was seen in (used object / representation / declared elements)"""
     rest = key[len("C03/"):]
+    if case.get("other"): return "C03/other-mesh-in-use/" + rest
     if case.get("pre_swaps"): return "C03/used-after-clear/" + rest
     if case.get("repr", "list") != "list": return f"C03/repr:{case['repr']}/" + rest
     if case.get("decl_faces") or case.get("decl_edges"): return "C03/declared/" + rest
@@ -628,7 +696,10 @@ def _family_key(case, key):
 
 def oracle(case):
     obs = observe(case)
-    if case["t"] == "lazy": return _oracle_lazy(case, obs)
+    if case["t"] == "lazy":
+        out = _oracle_lazy(case, obs)
+        for f in out: f["key"] = _family_key({"other": case.get("other")}, f["key"])
+        return out
     if case["t"] == "hex": return _oracle_hex(case, obs)
     out = _oracle_vol(case, obs)
     for f in out: f["key"] = _family_key(case, f["key"])
@@ -818,6 +889,12 @@ def _oracle_vol(case, obs):
     for name, again in obs["lists_again"].items():
         if again != obs[name]:
             out.append(_F(f"C03/history/border-lists/{name}", "a boundary/interior list changes between two reads on the same mesh", f"{obs[name]} then {again}"))
+    rr = obs["bc_reread"]
+    if "err" in rr:
+        out.append(_F(f"C03/raises/boundary/bc/reread/{rr['err']}", "reading the boundary index maps again raises"))
+    elif "err" not in obs["bc"] and any(rr[k] != obs["bc"][k] for k in rr):
+        out.append(_F("C03/history/boundary-maps/changed", "the index maps of an enabled boundary connectivity changed between two reads "
+                      "(nothing was done to this mesh in between)", [k for k in rr if rr[k] != obs["bc"][k]]))
     out += _check_surface("bc/second-call", obs["bc2"], bfaces, fkey, opp, P, True, V, bverts, bedges, ekey, obs)
     out += _check_surface("standalone/used-mesh", obs["sb_used"], bfaces, fkey, opp, P, allpos, V, bverts, bedges, ekey, obs)
     out += _check_surface("standalone/used-mesh-second-call", obs["sb_used2"], bfaces, fkey, opp, P, allpos, V, bverts, bedges, ekey, obs)
@@ -910,7 +987,8 @@ def nontrivial(case, obs):
 def classify(case, obs):
     if case["t"] == "lazy":
         o = json.loads(obs)
-        return ["lazy", f"lazy:len{min(len(case['ops']), 9)}", "lazy:first:" + case["ops"][0][0]] + ["lazy:outcome:" + s[0] for s in o["steps"]]
+        return ["lazy", f"lazy:len{min(len(case['ops']), 9)}", "lazy:first:" + case["ops"][0][0]] + ["lazy:outcome:" + s[0] for s in o["steps"]] \
+            + (["lazy:another-mesh-in-use"] if case.get("other") else [])
     if case["t"] == "hex":
         return ["hex", "hex:cells:" + str(min(len(case["C"]), 12))]
     n = len(case["C"])
@@ -930,6 +1008,7 @@ def classify(case, obs):
     if case.get("decl_faces") or case.get("decl_edges"): ks.append("vol:declared-faces-edges")
     if case.get("npargs"): ks.append("vol:numpy-int-arguments")
     if case.get("pre_swaps"): ks.append("vol:used-object:relabel+clear")
+    if case.get("other"): ks.append("vol:another-mesh-in-use")
     ks += ["vol:used-object:second-boundary-connectivity", "vol:used-object:standalone-on-filled-caches"]
     return ks
 
@@ -938,6 +1017,7 @@ def describe(case):
     if case["t"] == "lazy":
         return {"t": "lazy", "tag": case["tag"], "cells": len(case["C"]), "ops": case["ops"]}
     d = {"t": case["t"], "tag": case["tag"], "vertices": len(case["V"]), "cells": len(case["C"]), "sort": case["sort"]}
+    if case.get("other"): d["other_mesh_cells"] = len(case["other"]["C"])
     for k in ("repr", "npargs", "pre_swaps", "decl_faces", "decl_edges"):
         if case.get(k): d[k] = case[k]
     return d
